@@ -514,6 +514,7 @@ theorem occurs_iff_values (k : κ) (xs : List (Elem (κ × α))) :
 
 /-! ### shape of the emitted chunks (for grammar / watermark safety) -/
 
+omit [DecidableEq κ] in
 theorem mk_body (v : β) (t : Option Int) : isBody (Fold.mk v t) = true := by
   cases t <;> rfl
 
